@@ -930,11 +930,11 @@ FILE3_CELLS = {"VER3": 3, "PGM": 3, "COM": 1, "MNUM": 1, "MTYPE": 1, "OBSAG": 2,
 
 
 def gen_file3_model(rng, thorough: bool) -> Dict[str, Any]:
-    """gen_file3 restricted to the record kinds of the theorem's file model (no phase shift records,
-    comment texts without leading blanks: a cell of the abstract file has no outer blanks), every epoch with its flag (0, or 1 =
-    power failure between the previous and this epoch: the observation records follow as for flag 0)"""
+    """gen_file3 within the record kinds of the theorem's file model (GLONASS slot / bias records with one cell per slot/frequency
+    resp. type/bias pair, phase-shift records with the satellite list as one cell; comment texts without leading blanks: a cell of
+    the abstract file has no outer blanks), every epoch with its flag (0, or 1 = power failure between the previous and this epoch:
+    the observation records follow as for flag 0)"""
     m = gen_file3(rng, thorough)
-    m["phase_shift"] = []  # GLONASS slot / bias records are in the model (one cell per slot/frequency resp. type/bias pair)
     m["comments"] = [(p, t.strip()) for p, t in m["comments"]]
     for ep in m["epochs"]:
         ep["flag"] = "1" if rng.random() < 0.15 else "0"
@@ -1023,6 +1023,10 @@ def file3_tokens(m) -> List[str]:
         elif k == "GBIAS":
             cells = [f"{c[j]:<3} {c[j + 1]:>8}".strip() for j in range(0, len(c), 2)]
             toks.append("P:GBIASP:" + ",".join(hexs(x) for x in cells + [""] * (4 - len(cells))))
+        elif k in ("PSHIFT", "PSHIFTC"):
+            # system, type, correction, count, then the satellite list as the parser cuts it: one field of 40 columns
+            head, sats = ([x.strip() for x in c[:4]], c[4:]) if k == "PSHIFT" else ([""] * 4, c)
+            toks.append("P:PSHIFTP:" + ",".join(hexs(x) for x in head + [" ".join(f"{x:<3}" for x in sats).strip()]))
         else:
             if FILE3_CELLS.get(k) != len(c):
                 raise ValueError(f"record {k} with {len(c)} cells is outside the file model")
@@ -1060,6 +1064,8 @@ def first_diff_line(got: str, want: str) -> Tuple[int, str, str]:
 
 
 def stats_file3_glonass(ctx, m):
+    for _s, _t, _corr, sats in m.get("phase_shift") or []:
+        ctx.count("file3 phase-shift record" + (" with continuation" if len(sats) > 10 else " without satellites" if not sats else ""))
     if m.get("glonass_slot"):
         ctx.count("file3 GLONASS slot record" + (" with continuation" if len(m["glonass_slot"]) > 8 else ""))
     if m.get("glonass_bias") is not None:
@@ -1342,8 +1348,8 @@ def run(ctx: Ctx):
                 "header comments, lines stripped / padded to 80 / as formatted, sampling rates (none, dyadic; decimal rates in a separate "
                 "oracle-only block); written by an independent Python writer; non-trivial = at least two satellites and a continuation "
                 "line (header or data) or a sampling rate; distinct by file text + rate. "
-                "Block file3: RINEX 3 models restricted to the record kinds of the theorem's abstract file (Spec/Rinex3ObsFile.lean: no "
-                "phase-shift / GLONASS slot / bias records, comments without leading blanks), epoch flag 0 or 1 (15 %), in 25 % of the files 1-2 event epochs (flag 2-5 followed by "
+                "Block file3: RINEX 3 models as the theorem's abstract file (Spec/Rinex3ObsFile.lean: every header record of the writer, "
+                "phase-shift records with the satellite list as one cell and GLONASS slot / bias records with one cell per pair, comments without leading blanks), epoch flag 0 or 1 (15 %), in 25 % of the files 1-2 event epochs (flag 2-5 followed by "
                 "special records COMMENT / MARKER NAME / ANTENNA: DELTA H/E/N / ANT # / TYPE instead of satellites), are handed to the driver "
                 "as the abstract file F (cells as printed + the values computed here with Fraction): render(F) must be the independent writer's "
                 "text byte for byte, wf(F) and the theorem instance readData(fileLines F) = expected F must hold, expected(F) after the "
